@@ -10,8 +10,12 @@ package dtls
 import (
 	"crypto/tls"
 	"net"
+	"reflect"
 	"sync"
 	"time"
+	"unsafe"
+
+	"github.com/pion/sctp"
 )
 
 // vListenerCounts: len(connToCert), len(connMap), each under its own mutex.
@@ -27,6 +31,55 @@ func vListenerCounts(l *Listener) (ncerts, nchans int) {
 
 // vTokenLen: whether the one-slot flow-control token of SCTPConn is present.
 func vTokenLen(c *SCTPConn) int { return len(c.write) }
+
+// vRecvBufSizes: the sizes of the receive buffers of a connection returned by Server / Client with SCTP
+// (the SCTPConn's intermediate read buffer = bypass threshold, and the heartbeat server's read buffer
+// when the connection is an accepting one).
+func vRecvBufSizes(c net.Conn) ([]int, bool) {
+	s, ok := c.(*SCTPConn)
+	if !ok {
+		return nil, false
+	}
+	out := []int{int(s.maxMessageSize)}
+	if h, ok := s.stream.(*hbConn); ok {
+		out = append(out, h.maxMessageSize)
+	}
+	return out, true
+}
+
+// vAssocMax: MaxMessageSize() of the real pion association under a connection returned by Server / Client
+// with SCTP.  pkg/dtls keeps only the stream; the stream's association is reached by reflection.
+func vAssocMax(c net.Conn) (int, bool) {
+	s, ok := c.(*SCTPConn)
+	if !ok {
+		return 0, false
+	}
+	var under msgStream = s.stream
+	for i := 0; i < 4; i++ {
+		switch h := under.(type) {
+		case *hbConn:
+			under = h.stream
+			continue
+		case *hbClient:
+			under = h.msgStream
+			continue
+		}
+		break
+	}
+	st, ok := under.(*sctp.Stream)
+	if !ok || st == nil {
+		return 0, false
+	}
+	f := reflect.ValueOf(st).Elem().FieldByName("association")
+	if !f.IsValid() || f.Kind() != reflect.Ptr {
+		return 0, false
+	}
+	a := *(**sctp.Association)(unsafe.Pointer(f.UnsafeAddr()))
+	if a == nil {
+		return 0, false
+	}
+	return int(a.MaxMessageSize()), true
+}
 
 // certPair's two fields.
 func vCertPair(client, server *tls.Certificate) *certPair {
